@@ -761,6 +761,12 @@ class Translator:
             if len(eh) == 1: return self.enum_ct(eh[0])
         if args is not None and '::' not in base and ('std::' + base) in STD_MODELS:
             return self.model_ct('std::' + base, args, fctx, node)
+        mt = re.match(r'^(?:typename )?(?:std::|nmtools::meta::|meta::)?(remove_reference|remove_cvref|remove_const|remove_cv)<(.*)>::type$', name)
+        if mt:
+            # `typename remove_reference<T>::type` left unresolved in a desugared string (std::add_pointer_t): apply the trait textually
+            t = parse_type(mt.group(2))
+            if mt.group(1) in ('remove_reference', 'remove_cvref') and t.kind == 'ref': t = t.elem
+            return self.ct_of(t, fctx, node, scope)
         if args is not None and len(args) == 1 and base.split('::')[-1] in ('remove_reference_t', 'remove_cvref_t', 'remove_const_t', 'remove_cv_t') \
                 and (base.startswith('meta::') or base.startswith('nmtools::meta::') or base.startswith('std::')):
             # type-trait alias printed unresolved (no desugared string on a dependent-looking parameter type): apply it textually
@@ -832,6 +838,14 @@ class Translator:
         exact = [d for (a, d) in cands if len(a) == len(args)]
         if len(exact) == 1: return self.record_ct(exact[0], fctx)
         if not exact and len(cands) == 1: return self.record_ct(cands[0][1], fctx)
+        if len(exact) > 1:
+            # same-named templates in different namespaces (std::integral_constant / nmtools::meta::integral_constant) with the same
+            # arguments: harmless when every candidate is an empty record (identical C layout)
+            try:
+                cts = [self.record_ct(d, fctx) for d in exact]
+                if all(self.record_is_empty(c) for c in cts): return cts[0]
+            except Unsupported:
+                pass
         return None
 
     def _alias_template(self, base, args, fctx, node, scope):
@@ -2473,6 +2487,18 @@ class Translator:
                         vals.append(re.sub(r'[uUlL]+$', '', ax[1]))
                     if vals is not None and len(vals) == int(ct.margs[1]):
                         return '((%s){{%s}})' % (ct.c, ', '.join(self.lit(int(v), ct.margs[0]) for v in vals))
+            if d.get('name') == 'fixed_shape_v' and ct.model == 'array':
+                # meta::fixed_shape_v<std::array<T,N>> (possibly nested arrays / raw arrays): the extents are spelled in the type
+                ta = [c for c in d.get('inner', []) or [] if c.get('kind') == 'TemplateArgument']
+                ts = norm_type_string(strip_cv(((ta[0].get('type') or {}).get('desugaredQualType') or (ta[0].get('type') or {}).get('qualType') or ''))) if ta else ''
+                dims = []
+                while True:
+                    b0, a0 = split_template(strip_cv(ts))
+                    if a0 is not None and b0 in ('std::array', 'nmtools::utl::array') and len(a0) == 2 and re.match(r'^\d+[uUlL]*$', a0[1]):
+                        dims.append(int(re.sub(r'[uUlL]+$', '', a0[1]))); ts = a0[0]; continue
+                    break
+                if dims and strip_cv(ts) in BUILTIN and len(dims) == int(ct.margs[1]):
+                    return '((%s){{%s}})' % (ct.c, ', '.join(self.lit(v, ct.margs[0]) for v in dims))
             fail('non-empty record constant %s' % d.get('name'), n)
         init = None
         for c in d.get('inner', []) or []:
